@@ -13,7 +13,7 @@ class C11(Property):
     gen_targets = ["Funfit", "Kernels", "WeaverGlue", "ProcessGlue"]
 
     def units(self, tier):
-        return [TruncateUnit(), WC11(("C11",), ops=['truncate_by_value','truncate_by_value','truncate_by_index','shift_x','scale_x','recreate','append'], max_len=6, queries=True)]
+        return [TruncateUnit(), WC11(("C11",), ops=['truncate_by_value','truncate_by_value','truncate_by_index','truncate_by_index','shift_x','scale_x','recreate','append','interpolate'], max_len=6, queries=True)]
 
 
 PROPERTY = C11()
